@@ -286,6 +286,11 @@ class Verdict:
         self.violations = []   # (summary, replay obj)
         self.known = {}        # finding id -> count
         self.findings = [f for f in load_findings() if f["property"] == pid and f.get("status") == "open"]
+        d = os.path.join(WORK, "replay")     # replay files of earlier runs of this check are stale
+        if os.path.isdir(d):
+            for fn in os.listdir(d):
+                if fn.startswith(pid + "-"):
+                    os.remove(os.path.join(d, fn))
 
     def violation(self, summary, replay_obj):
         self.violations.append((summary, replay_obj))
